@@ -54,6 +54,23 @@ func genPriorityPlan(t *rapid.T) *Plan {
 			cur += odd(time.Duration(rapid.Int64Range(int64(h), int64(6*h)).Draw(t, "g")))
 		}
 	}
+	if mode == "prompt" && rapid.IntRange(0, 1).Draw(t, "succession") == 0 {
+		// a leader leaves (gracefully or not): the instances that were turned away before must still
+		// preempt whoever of lower priority picks the vacant key up
+		for j := 0; j < rapid.IntRange(1, 2).Draw(t, "leavers"); j++ {
+			i := order[rapid.IntRange(0, min(1, n-1)).Draw(t, "leaver")]
+			at := odd(cur + time.Duration(rapid.Int64Range(int64(2*h), int64(8*h)).Draw(t, "leave_at")))
+			a := Action{At: at, Kind: ActStopCtx, Inst: i, DeleteKey: rapid.Bool().Draw(t, "leave_delete")}
+			if rapid.IntRange(0, 2).Draw(t, "leave_plain") == 0 {
+				a = Action{At: at, Kind: ActStop, Inst: i}
+			}
+			p.Timeline = append(p.Timeline, a)
+			if rapid.Bool().Draw(t, "comes_back") {
+				p.Timeline = append(p.Timeline, Action{At: at + odd(time.Duration(rapid.Int64Range(int64(h), int64(6*h)).Draw(t, "back_after"))), Kind: ActStart, Inst: i, NewObject: rapid.Bool().Draw(t, "back_new")})
+			}
+			cur = at
+		}
+	}
 	if mode == "adversarial" {
 		// stops and restarts are allowed for the safety clause
 		for j := 0; j < rapid.IntRange(0, 2).Draw(t, "stops"); j++ {
@@ -82,7 +99,7 @@ func seq(n int) []int {
 
 func TestC10(t *testing.T) {
 	RunCheck(t, CheckSpec{Prop: "C10",
-		Rule:   "2-5 instances with priorities from {0,1,1,2,2,3,100} (ties frequent) and mixed takeover flags; every start order (a drawn permutation) with gaps from 2ns to 6H, or a challenger started at a phase (issued/applied/returning) of the incumbent's k-th heartbeat; two modes: 'prompt' (fault-free, RTT <= H/10, watch deliveries delayed by at most H/10, starts only) and 'adversarial' (latencies up to H/3 per direction, stops and restarts) for the safety clause; oracle: every applied Update over another party's live record comes from an enabled instance with strictly higher priority than the stored one; in prompt mode a strictly higher-priority enabled instance next to a lower-priority leader leads within 3H, the deposed leader is down within H+2T of the replacing write, and after settling the owner never changes again and no outranked instance leads. Non-trivial = a preemption opportunity (enabled instance vs a different priority) or a tie among enabled instances; distinct by plan hash.",
+		Rule:   "2-5 instances with priorities from {0,1,1,2,2,3,100} (ties frequent) and mixed takeover flags; every start order (a drawn permutation) with gaps from 2ns to 6H, or a challenger started at a phase (issued/applied/returning) of the incumbent's k-th heartbeat; two modes: 'prompt' (fault-free, RTT <= H/10, watch deliveries delayed by at most H/10; starts, and in half of the plans a leader that leaves and possibly comes back) and 'adversarial' (latencies up to H/3 per direction, stops and restarts) for the safety clause; oracle: every applied Update over another party's live record comes from an enabled instance with strictly higher priority than the stored one; in prompt mode a strictly higher-priority enabled instance next to a lower-priority leader leads within 3H, the deposed leader is down within H+2T of the replacing write, and after settling the owner never changes again and no outranked instance leads. Non-trivial = a preemption opportunity (enabled instance vs a different priority) or a tie among enabled instances; distinct by plan hash.",
 		Gen:    genPriorityPlan,
 		Oracle: OracleC10})
 }
